@@ -141,7 +141,7 @@ def fam_benign(rng):
 
 def fam_flagged(rng, kind=None):
     """(bytes, label) -- flagged by fickling but harmless if loaded"""
-    kinds = ["unused", "nonstd", "dupproto", "osmod", "eval", "nonstd_call", "builtin_call"]
+    kinds = ["unused", "nonstd", "dupproto", "osmod", "eval", "nonstd_call", "builtin_call", "mixed", "mixed"]
     kind = kind or rng.choice(kinds)
     if kind == "unused":
         prog = [("GLOBAL", ("collections", "OrderedDict")), "EMPTY_TUPLE", "REDUCE", "POP", "NONE", "STOP"]
@@ -157,6 +157,25 @@ def fam_flagged(rng, kind=None):
         prog = [("GLOBAL", ("builtins", "eval")), "MARK", ("UNICODE", "1+1"), "TUPLE", "REDUCE", "STOP"]
     elif kind == "builtin_call":
         prog = [("GLOBAL", ("builtins", "len")), "MARK", "EMPTY_LIST", "TUPLE", "REDUCE", "STOP"]
+    elif kind == "mixed":
+        # two to four flagged fragments in a random order: findings of several severities in one pickle,
+        # among them findings of ONE analysis name at different severities (eval vs another call), in both orders
+        frags = {
+            "eval": [("GLOBAL", ("builtins", "eval")), "MARK", ("UNICODE", "1+1"), "TUPLE", "REDUCE"],
+            "nonstd_call": [("GLOBAL", (SINK, "record")), ("BININT1", 7), "TUPLE1", "REDUCE"],
+            "builtin_call": [("GLOBAL", ("builtins", "len")), "MARK", "EMPTY_LIST", "TUPLE", "REDUCE"],
+            "osmod": [("GLOBAL", ("os", "getcwd")), "EMPTY_TUPLE", "REDUCE"],
+            "nonstd": [("GLOBAL", (SINK, "record"))],
+            "std_call": [("GLOBAL", ("collections", "OrderedDict")), "EMPTY_TUPLE", "REDUCE"],
+        }
+        names = sorted(frags)
+        rng.shuffle(names)
+        chosen = names[: rng.randrange(2, 5)]
+        prog = [("PROTO", 2)] if rng.random() < 0.5 else []
+        for i, n in enumerate(chosen):
+            prog += frags[n] + (["POP"] if i < len(chosen) - 1 else [])
+        prog.append("STOP")
+        kind = "mixed:" + "+".join(chosen)
     else:
         raise ValueError(kind)
     return assemble(prog), kind
